@@ -483,7 +483,7 @@ fn cmd_check(a: &[String]) -> i32 {
         required.extend(["lane.fast.completed", "rx.datagrams_compared", "rx.gro_batches_split_by_stride", "rx.meta_checked", "rx.ecn_conveyed", "echo.roundtrips_checked", "rx.truncation_probes", "rx.multi_message_batches", "tx.gso_short_last_segment", "tx.gso_at_max_segments", "cmsg.checks", "cmsg.undersized_buffer_documented_panics", "tx.oversize_emsgsize"]);
     }
     if want("degrade") {
-        required.extend(["lane.degrade.processes_completed", "degrade.offload_halted", "degrade.started_without_gso", "degrade.started_without_gro", "degrade.trigger_reported_by_try_send", "degrade.recv_surfaced_enosys"]);
+        required.extend(["lane.degrade.processes_completed", "degrade.offload_halted", "degrade.started_without_gso", "degrade.started_without_gro", "degrade.trigger_ok_from_try_send", "degrade.recv_surfaced_enosys"]);
     }
     if want("asan") {
         required.push("lane.asan.processes_completed");
